@@ -278,7 +278,12 @@ class Interp:
                     cur = self.load(lv)
                     if isinstance(cur, int) and not isinstance(cur, bool):
                         self.store(lv, cur + (1 if e["op"] == "++" else -1))
-                    elif not (isinstance(cur, tuple) and cur and cur[0] == "iter"):
+                    elif isinstance(cur, tuple) and cur and cur[0] == "iter":
+                        if cur[1] == "end":
+                            raise Unknown("increment of the end iterator")
+                        if not str(cur[1]).startswith("__"):
+                            self.store(lv, ("iter", "next"))
+                    else:
                         raise Unknown("increment of %r" % (cur,))
                 elif k == "return":
                     return ("return", self.ev(e["x"]) if e.get("x") is not None else None)
